@@ -1,4 +1,5 @@
 (* C17 — Binary-subdivision altitude IDs cover the voxel and stay inside the height range.
+   ALL THEOREMS HERE ARE ABOUT THE MODEL (theories/BitAlt.v), a Gallina transcription of the Go code that every run compares with the code.
    Only statements, `exact` proofs and Print Assumptions live here. Models: theories/BitAlt.v (bit-exact binary64 model of calcBitIndex,
    convertVerticallIDToBit, convertBitToVerticalID and the exported conversions), BitAltRef.v (exact integer reference + run-time checkers),
    BitAltR.v (the same loop over the reals), BitAltF.v / BitAltV.v / BitAltT.v (Flocq side).
@@ -44,11 +45,13 @@ Theorem C17_forward_is_contiguous_run : forall v f oz (mx mn : pfloat), 0 <= v <
 Proof. exact vid_to_bit_run. Qed.
 Print Assumptions C17_forward_is_contiguous_run.
 
-(* coverage in the code's own terms: every float64 altitude between the two faces of the voxel is given (by calcBitIndex) a cell of the run *)
-Theorem C17_forward_covers_voxel : forall v f oz (mx mn a : pfloat), 0 <= v <= 35 -> Z.abs f < 2 ^ 52 -> 0 <= oz ->
+(* coverage IN THE CODE'S OWN CELLS only: every float64 altitude between the two faces of the voxel is given, by calcBitIndex itself, a cell of
+   the run. This follows from monotonicity alone and says nothing about where those cells lie in space: geometric coverage is item 4/5 (exact
+   twin, dyadic ranges) and is refuted in general (item 5, finding bit_rounding). *)
+Theorem C17_forward_covers_voxel_in_own_cells : forall v f oz (mx mn a : pfloat), 0 <= v <= 35 -> Z.abs f < 2 ^ 52 -> 0 <= oz ->
   geF a (vox_alt f v) = true -> geF (vox_alt (f + 1) v) a = true -> In (calc_bit_index a oz mx mn) (vid_to_bit v f oz mx mn).
 Proof. exact vid_to_bit_covers. Qed.
-Print Assumptions C17_forward_covers_voxel.
+Print Assumptions C17_forward_covers_voxel_in_own_cells.
 
 (* ---------- 4. the exact-arithmetic twin (the same loop over the reals): the index is the clamped floor of the normalised altitude;
    altitudes outside the range are clamped to the first / last cell; the run covers the voxel ---------- *)
@@ -99,8 +102,8 @@ Print Assumptions C17_forward_equals_reference_on_dyadic_ranges.
 
 (* On other ranges the float borders carry rounding errors and the float answer can differ from the exact one at a cell border: refuted with a
    witness (range [-1, 1+2^-52], voxel 20/0 = altitudes [0,32), zoom 1: the code emits [1], the exact run is 0..1). The run-time check counts
-   such cases under the finding class bit_rounding when the float answer is within 2^-45 (|min|+|max|) of the exact border, and reports
-   anything farther away as a violation; that error bound itself is validated on every run, not proved. *)
+   such cases under the finding class bit_rounding when the float answer is within (zoom+1) 2^-52 (|min|+|max|) of the exact border (derivation:
+   BitAltRef.v), and reports anything farther away as a violation; that error bound itself is validated on every run, not proved. *)
 Theorem C17_float_equals_exact_everywhere_refuted :
   exists v f oz (mx mn : pfloat) dmn dmx,
     dyadic mn = Some dmn /\ dyadic mx = Some dmx /\ range_ok dmn dmx = true /\ (0 <= v <= 35 /\ - 2 ^ v <= f < 2 ^ v) /\
@@ -114,31 +117,49 @@ Theorem C17_reversed_heights_error_forward : forall hkeys s r outH outV (mx mn :
 Proof. exact reversed_heights_forward. Qed.
 Print Assumptions C17_reversed_heights_error_forward.
 
+(* reverse direction: an element with reversed heights anywhere in the list makes the conversion fail, provided every element is inside the
+   model's domain (from_qv_one = None only for a non-finite / beyond-int64 vertical index, where Go's int64(NaN) is unspecified) *)
 Theorem C17_reversed_heights_error_reverse : forall hids l outH outV,
+  (forall q, In q l -> from_qv_one hids q outH outV <> None) ->
   (exists q, In q l /\ (q_max q <? q_min q)%float = true) ->
-  qv_to_ext hids l outH outV = Some Err \/ qv_to_ext hids l outH outV = None.   (* None: an earlier element has a non-finite bound *)
-Proof. exact qv_to_ext_reversed_heights. Qed.
+  qv_to_ext hids l outH outV = Some Err.
+Proof. exact qv_to_ext_reversed_heights_err. Qed.
 Print Assumptions C17_reversed_heights_error_reverse.
-
-Theorem C17_reversed_heights_error_reverse_spatial : forall hids l z,
+(* without the domain hypothesis only this weaker form holds (None = an earlier element left the model's domain) *)
+Theorem C17_reversed_heights_error_reverse_spatial_partial : forall hids l z,
   (exists q, In q l /\ (q_max q <? q_min q)%float = true) ->
   qv_to_sid hids l z = Some Err \/ qv_to_sid hids l z = None.
 Proof. exact qv_to_sid_reversed_heights. Qed.
-Print Assumptions C17_reversed_heights_error_reverse_spatial.
+Print Assumptions C17_reversed_heights_error_reverse_spatial_partial.
+(* Model facts about the empty list (no voxel is interpreted, so the property, which quantifies over voxels, demands nothing there): the
+   conversions return Ok [] whatever the heights; this is why the forward error theorem above is stated for s :: r. *)
+Theorem C17_empty_list_is_never_an_error : forall hkeys outH outV (mx mn : pfloat), quadkey_check_zoom outH outV = true ->
+  ext_to_qv hkeys [] outH outV mx mn = Ok [] /\ sid_to_qv hkeys [] outH outV mx mn = Ok [].
+Proof. exact ext_to_qv_empty. Qed.
+Print Assumptions C17_empty_list_is_never_an_error.
+Theorem C17_empty_list_reverse : forall hids outH outV, ext_check_zoom outH outV = true -> qv_to_ext hids [] outH outV = Some (Ok []).
+Proof. exact qv_to_ext_empty. Qed.
+Print Assumptions C17_empty_list_reverse.
+Theorem C17_empty_list_with_reversed_heights_is_ok :
+  exists (mx mn : pfloat), (mx <? mn)%float = true /\ forall hkeys, ext_to_qv hkeys [] 20 1 mx mn = Ok [].
+Proof. exact reversed_heights_empty_list_witness. Qed.
+Print Assumptions C17_empty_list_with_reversed_heights_is_ok.
 (* the spatial-ID variant is the extended conversion at (z, z) with every ID rewritten from z/x/y/z/f to z/f/x/y *)
 Theorem C17_api_reverse_spatial : forall hids l z r, qv_to_sid hids l z = Some (Ok r) ->
   exists a, qv_to_ext hids l z z = Some (Ok a) /\ map_opt eid_to_sid_str a = Some r.
 Proof. exact qv_to_sid_spec. Qed.
 Print Assumptions C17_api_reverse_spatial.
 
-(* ---------- 7. reverse direction: the vertical index of a bound is its exact floor; the emitted IDs are the contiguous run between the
-   indices of the cell's two (computed) bounds and cover every altitude between them ---------- *)
+(* ---------- 7. reverse direction. (a) the vertical index of an altitude is its exact floor; (b) PARTIAL: the emitted IDs are the contiguous run
+   between the indices of the two COMPUTED float bounds (nothing here ties those to the true bounds of the cell; hypotheses: finite intermediates,
+   indices below 2^52); (c) on dyadic ranges the computed bounds ARE the true bounds and the emitted run is the exact reference run, hence covers
+   the cell's altitude interval; (d) in general that is refuted: finding class bit_rounding_reverse ---------- *)
 Theorem C17_vertical_index_is_exact_floor : forall (a : pfloat) oz, 0 <= oz <= 35 -> alt_ok a oz ->
   f_f a oz = Some (Zfloor (val a * bpow radix2 (oz - 25))).
 Proof. exact f_f_exact. Qed.
 Print Assumptions C17_vertical_index_is_exact_floor.
 
-Theorem C17_reverse_is_contiguous_run_covering_the_cell : forall vz k oz (mx mn : pfloat),
+Theorem C17_reverse_is_run_between_computed_bounds_partial : forall vz k oz (mx mn : pfloat),
   0 <= vz <= 35 -> 0 <= oz <= 35 -> Z.abs k < 2 ^ 52 -> fin mx -> fin mn -> (val mn <= val mx)%R ->
   let h := cell_height vz mx mn in
   let blo := cell_alt k h mn in let bhi := cell_alt (k + 1) h mn in
@@ -150,7 +171,26 @@ Theorem C17_reverse_is_contiguous_run_covering_the_cell : forall vz k oz (mx mn 
   (forall x, In x (vid_run hi lo) <-> lo <= x <= hi) /\
   (forall a : R, (val blo <= a <= val bhi)%R -> lo <= Zfloor (a * bpow radix2 (oz - 25)) <= hi).
 Proof. exact bit_to_vid_run. Qed.
-Print Assumptions C17_reverse_is_contiguous_run_covering_the_cell.
+Print Assumptions C17_reverse_is_run_between_computed_bounds_partial.
+
+(* (c) bounds a 2^e < b 2^e with (|a|+|b|) 2^(vz+2) < 2^53 (e.g. [0,500], +-256, [-100,400] at every vz up to 35 resp. 41-log2 bits), cell numbers
+   |k| <= 2^(vz+1), indices below 2^52: max-min, /2^vz, float64(k)*h and +min are all exact *)
+Theorem C17_reverse_equals_reference_on_dyadic_ranges : forall vz k oz (mx mn : pfloat) (a b e : Z),
+  0 <= vz <= 35 -> 0 <= oz <= 35 -> fin mx -> fin mn -> val mn = (IZR a * bpow radix2 e)%R -> val mx = (IZR b * bpow radix2 e)%R ->
+  Z.abs k <= 2 ^ (vz + 1) -> (Z.abs a + Z.abs b) * 2 ^ (vz + 2) < 2 ^ 53 -> -900 <= e - vz -> e + 60 <= 1024 ->
+  (IZR (Z.abs a + Z.abs b) * bpow radix2 (e + 2 + (oz - 25)) < bpow radix2 52)%R ->
+  let '(lo, hi) := rev_ref vz k oz (a, e) (b, e) in
+  bit_to_vid vz k oz mx mn = Some (map (vstr oz) (vid_run hi lo)).
+Proof. exact bit_to_vid_dyadic_exact. Qed.
+Print Assumptions C17_reverse_equals_reference_on_dyadic_ranges.
+(* (d) range [0.1, 0.3] (the float64 values), cell 14 of 2^5, output zoom 35: the code emits 192..198, the exact run is 191..198: the lowest
+   sliver of the cell is not covered. Inside the reverse band 4 * 2^-52 (|min|+|max|): class bit_rounding_reverse. *)
+Theorem C17_reverse_equals_exact_everywhere_refuted :
+  exists vz k oz (mx mn : pfloat) dmn dmx,
+    dyadic mn = Some dmn /\ dyadic mx = Some dmx /\ range_ok_rev dmn dmx vz k = true /\
+    bit_to_vid_idx vz k oz mx mn = Some (198, 192) /\ rev_ref vz k oz dmn dmx = (191, 198) /\ band_rev vz k oz dmn dmx 192 198 = true.
+Proof. exact reverse_differs_witness. Qed.
+Print Assumptions C17_reverse_equals_exact_everywhere_refuted.
 
 (* ---------- 8. the exported conversions in height-range mode, for any horizontal conversion ---------- *)
 Theorem C17_api_forward_pairs : forall hkeys outH outV (mx mn : pfloat), (mn <? mx)%float = true -> forall ids gs,
@@ -170,6 +210,18 @@ Theorem C17_api_reverse_element : forall hids q outH outV r, (q_min q <? q_max q
 Proof. exact from_qv_one_spec. Qed.
 Print Assumptions C17_api_reverse_element.
 
+(* the whole list: the result set is the union of the elements' results *)
+Theorem C17_api_reverse_list : forall hids l outH outV r, qv_to_ext hids l outH outV = Some (Ok r) ->
+  ext_check_zoom outH outV = true /\
+  (forall id, In id r <-> exists q a, In q l /\ from_qv_one hids q outH outV = Some (Ok a) /\ In id a).
+Proof. exact qv_to_ext_spec. Qed.
+Print Assumptions C17_api_reverse_list.
+(* the spatial-ID forward conversion is the extended one after the notation change (so C17_api_forward_pairs applies to it) *)
+Theorem C17_api_forward_spatial : forall hkeys ids outH outV (mx mn : pfloat) gs, sid_to_qv hkeys ids outH outV mx mn = Ok gs ->
+  exists e, map_opt sid_to_eid_str ids = Some e /\ ext_to_qv hkeys e outH outV mx mn = Ok gs.
+Proof. exact sid_to_qv_spec. Qed.
+Print Assumptions C17_api_forward_spatial.
+
 (* ---------- 9. the run-time checkers decide the specification ---------- *)
 Theorem C17_run_checker_sound : forall obs lo hi, check_run obs lo hi = true -> lo <= hi /\ forall y, In y obs <-> lo <= y <= hi.
 Proof. exact check_run_sound. Qed.
@@ -185,6 +237,14 @@ Theorem C17_reverse_checker_sound : forall vz k oz dmn dmx obs, check_rev vz k o
   let '(lo, hi) := rev_ref vz k oz dmn dmx in lo <= hi /\ forall y, In y obs <-> lo <= y <= hi.
 Proof. exact check_rev_sound. Qed.
 Print Assumptions C17_reverse_checker_sound.
+Theorem C17_forward_checker_complete : forall v f oz dmn dmx obs,
+  (let '(lo, hi) := fwd_ref v f oz dmn dmx in lo <= hi /\ forall y, In y obs <-> lo <= y <= hi) -> check_fwd v f oz dmn dmx obs = true.
+Proof. exact check_fwd_complete. Qed.
+Print Assumptions C17_forward_checker_complete.
+Theorem C17_reverse_checker_complete : forall vz k oz dmn dmx obs,
+  (let '(lo, hi) := rev_ref vz k oz dmn dmx in lo <= hi /\ forall y, In y obs <-> lo <= y <= hi) -> check_rev vz k oz dmn dmx obs = true.
+Proof. exact check_rev_complete. Qed.
+Print Assumptions C17_reverse_checker_complete.
 Theorem C17_reverse_reference_is_exact : forall vz k oz dmn dmx, 0 <= vz ->
   rev_ref vz k oz dmn dmx =
   (Zfloor ((dval dmn + IZR k * ((dval dmx - dval dmn) / IZR (2 ^ vz))) * bpow radix2 (oz - 25)),
